@@ -778,6 +778,9 @@ func (c *Ctx) lockExpr(info *types.Info, spec LockSpec, tpath string, guarded ma
 				mut = true
 			}
 		}
+		// callee that stores into the elements of a slice/map parameter
+		// (summary computed by the caller of runLockset)
+		mutArgs := lockMutators[o]
 		// helper call on a T-typed receiver/argument
 		if fn, ok := o.(*types.Func); ok && record && fn.Pkg() != nil && strings.HasPrefix(fn.Pkg().Path(), modPath) {
 			var baseExpr ast.Expr
@@ -806,10 +809,71 @@ func (c *Ctx) lockExpr(info *types.Info, spec LockSpec, tpath string, guarded ma
 		}
 		c.lockExpr(info, spec, tpath, guarded, fresh, fi, x.Fun, s, record, false)
 		for i, a := range x.Args {
-			c.lockExpr(info, spec, tpath, guarded, fresh, fi, a, s, record, mut && i == 0)
+			c.lockExpr(info, spec, tpath, guarded, fresh, fi, a, s, record, (mut && i == 0) || mutArgs[i])
 		}
 		return
 	}
+}
+
+// lockMutators: function object -> indexes of parameters whose elements the
+// function stores into (p[i] = …, delete(p, k)). Filled by computeMutators.
+var lockMutators = map[types.Object]map[int]bool{}
+
+func computeMutators(pkgs []*packages.Package) int {
+	n := 0
+	for _, pk := range pkgs {
+		info := pk.TypesInfo
+		eachFunc(pk, func(fd *ast.FuncDecl) {
+			obj := info.Defs[fd.Name]
+			if obj == nil || fd.Type.Params == nil {
+				return
+			}
+			idx := map[types.Object]int{}
+			k := 0
+			for _, f := range fd.Type.Params.List {
+				for _, nm := range f.Names {
+					if o := info.Defs[nm]; o != nil {
+						switch o.Type().Underlying().(type) {
+						case *types.Slice, *types.Map:
+							idx[o] = k
+						}
+					}
+					k++
+				}
+				if len(f.Names) == 0 {
+					k++
+				}
+			}
+			if len(idx) == 0 {
+				return
+			}
+			mark := func(e ast.Expr) {
+				if ix, ok := unparen(e).(*ast.IndexExpr); ok {
+					if id, ok := unparen(ix.X).(*ast.Ident); ok {
+						if i, ok := idx[info.ObjectOf(id)]; ok {
+							if lockMutators[obj] == nil {
+								lockMutators[obj] = map[int]bool{}
+								n++
+							}
+							lockMutators[obj][i] = true
+						}
+					}
+				}
+			}
+			ast.Inspect(fd.Body, func(nd ast.Node) bool {
+				switch x := nd.(type) {
+				case *ast.AssignStmt:
+					for _, l := range x.Lhs {
+						mark(l)
+					}
+				case *ast.IncDecStmt:
+					mark(x.X)
+				}
+				return true
+			})
+		})
+	}
+	return n
 }
 
 func (c *Ctx) recordAccess(info *types.Info, spec LockSpec, fresh map[types.Object]bool, fi *funcLockInfo, se *ast.SelectorExpr, field string, s lockState, write, atom bool) {
